@@ -76,6 +76,10 @@ func (e *Enc) external(cur *cursor, v ssa.Value, callee *ssa.Function, args []Va
 		return true
 	}
 	switch full {
+	case "flag.String", "flag.Bool", "flag.Int":
+		// assumed contract: returns a pointer to freshly allocated storage for the flag's value
+		set(e.allocAddr(cur))
+		return true
 	case "errors.New", "fmt.Errorf":
 		set(e.newError(cur))
 		if _, ok := e.m.spec.Ghosts["$faulted"]; ok {
